@@ -111,6 +111,12 @@ impl<'a> Params<'a> {
 		let json = match self.0.as_ref() {
 			// It's assumed that params is `[a,b,c]`, if empty regard as no params.
 			Some(json) if json == "[]" => "",
+			// An empty array may contain whitespace between the brackets, e.g. `[ ]`.
+			Some(json)
+				if json.strip_prefix('[').and_then(|j| j.strip_suffix(']')).is_some_and(|j| j.trim().is_empty()) =>
+			{
+				""
+			}
 			Some(json) => json,
 			None => "",
 		};
